@@ -1232,13 +1232,10 @@ class System:
                             eff += [100.0]
                         else:
                             eff += [100 * p / (p + l)]
-                        w = list(set(df[filt]["Warnings"].tolist()))
-                        if len(w) > 1:
-                            if "" in w:
-                                w.remove("")
-                            warn += [", ".join(w)]
-                        else:
-                            warn += [""]
+                        w = []
+                        for cw in df[filt]["Warnings"].tolist():
+                            w += [t for t in cw.split() if t not in w]
+                        warn += [", ".join(w)]
                 if phase_list != [""]:
                     res["Phase"] = phases
                 res["Rail"] = rail
